@@ -43,9 +43,9 @@ def unit(ctx, focus):
                  {"driver": "memory", "k": kk, "table": "FQ"}, timeout=3000)
     for k in ([1, 3] if q else [0, 1, 2, 3, 4]):
         tr = os.path.join(ctx.work, "random-memory-k%d.trace.ndjson" % k)
-        ctx.harness("memory", "random", out=tr, seed=ctx.seed + k, k=k, table="FT", n=10 if q else 100, len=400 if q else 2000)
-        ctx.validate("Trace_Memory_T", cfg_trace(6, "FR", k), tr, "random-memory-k%d" % k, DESCRIBE,
-                     {"driver": "memory", "k": k, "table": "FT"})
+        ctx.harness("memory", "random", out=tr, seed=ctx.seed + k, k=k, table="FZ", n=10 if q else 100, len=400 if q else 2000)
+        ctx.validate("Trace_Memory_T", cfg_trace(8, "FZ", k), tr, "random-memory-k%d" % k, DESCRIBE,
+                     {"driver": "memory", "k": k, "table": "FZ"})
 
 
 def replay_unit(ctx, rp):
@@ -55,5 +55,5 @@ def replay_unit(ctx, rp):
     tr = os.path.join(ctx.work, "replay.trace.ndjson")
     k, table = rp["meta"]["k"], rp["meta"]["table"]
     ctx.harness("memory", "replay", **{"in": scen, "out": tr, "k": k, "table": table})
-    ctx.validate("Trace_Memory_T", cfg_trace(3 if table == "FQ" else 6, "FQ" if table == "FQ" else "FR", k), tr, "replay",
+    ctx.validate("Trace_Memory_T", cfg_trace({"FQ": 3, "FZ": 8}.get(table, 6), {"FQ": "FQ", "FZ": "FZ"}.get(table, "FR"), k), tr, "replay",
                  DESCRIBE, rp["meta"])
